@@ -94,11 +94,17 @@ class Scope(FortranObj):
         if not public_only:
             return copy.copy(self.children)
         pub_children = []
+        # The members of an interface block without a generic name are entities
+        # of the enclosing scope: its default accessibility applies to them and
+        # the placeholder itself is never named in a PUBLIC/PRIVATE statement
+        def_vis = self.def_vis
+        if self.name.startswith("#GEN_INT") and self.parent is not None:
+            def_vis = self.parent.def_vis
         for child in self.children:
-            if (child.vis < 0) or ((self.def_vis < 0) and (child.vis <= 0)):
-                continue
             if child.name.startswith("#GEN_INT"):
                 pub_children.append(child)
+                continue
+            if (child.vis < 0) or ((def_vis < 0) and (child.vis <= 0)):
                 continue
             pub_children.append(child)
         return pub_children
